@@ -207,8 +207,7 @@ def n_labels {α : Type} (s : LGraph α) : Nat :=
   (List.length (labels_prop s))
 
 def validate_input {α : Type} (pcloud : List α) (n_expected_points : Nat) : Except Err Unit :=
-  let nactualpoints0 := (List.length pcloud)
-  if ((nactualpoints0 != n_expected_points)) then
+  if (((List.length pcloud) != n_expected_points)) then
     let msg0 := ()
     .error .labelling
   else
